@@ -27,7 +27,7 @@ RUN_WALL_S = 30
 SYS_MAX_LEN = 4
 TIERS = {
     "quick": {"cases": 160_000, "episode": 400, "selftest": 96, "wall_cap_s": 600, "shrink_s": 45},
-    "thorough": {"cases": 6_000_000, "episode": 1000, "selftest": 1024, "wall_cap_s": 3 * 3600, "shrink_s": 120},
+    "thorough": {"cases": 30_000_000, "episode": 2000, "selftest": 1024, "wall_cap_s": 3 * 3600, "shrink_s": 120, "distinct_sample": 32},
 }
 RULE = ("cases 0..69903 are the systematic sweep of every history of length 1..4 over {UNSEG,FIRST,CONT,LAST} x 2 APIDs x "
         "{in-sequence, gap} (a warm-up for short histories); later cases draw, from one seed, either a direct history "
@@ -39,7 +39,7 @@ COMPONENTS = {
     "real": ["XtcePacketDefinition.packet_generator(combine_segmented_packets=True) incl. the real ccsds_generator framer",
              "XtcePacketDefinition.from_xtce (header-only document)", "io.BufferedReader", "warnings machinery"],
     "stub": ["instrument producers (one per APID, 14-bit counters)", "multiplexer (event timing)",
-             "space link (drop / dup / delay-reorder / flag-flip / count-jump / producer restart)",
+             "space link (drop / dup / delay-reorder / flag-flip / count-jump / producer restart / link cut at a drawn byte)",
              "SimSocket delivering one arrival per recv", "SimRaw disk", "25-line per-APID reassembly reference model"],
 }
 ASSUMPTIONS = [
@@ -53,7 +53,7 @@ ASSUMPTIONS = [
 ]
 EXPECTED_PROBES = ("wrap_in_group", "three_apids_open", "orphan_after_complete", "orphan_after_rejected", "sh_gt_segment",
                    "u_while_open", "superseded_first", "group_emitted", "group_gap_rejected", "drop", "dup", "reorder",
-                   "flag_flip", "count_jump", "producer_restart")
+                   "flag_flip", "count_jump", "producer_restart", "link_cut")
 COV_UNIVERSE = 32
 
 U, F, C, L = factory.FLAG_UNSEG, factory.FLAG_FIRST, factory.FLAG_CONT, factory.FLAG_LAST
@@ -227,13 +227,27 @@ def run(ch, render=False):
             w.spawn(f"prod{pi}", producer(pi), delay=ch.pick((0, 500_000, 2_500_000), "pstart"))
         w.drain()
 
-    n_arr = len(arrivals)
     stream_parts = []
     for a in arrivals:
         if k:
             stream_parts.append(b"\xEE" * k)
         stream_parts.append(a[3])
     stream = b"".join(stream_parts)
+    # link cut: the downlink dies at a drawn byte offset (file torn / peer closes); only the arrivals delivered
+    # completely before the cut are history, whatever group was open at that moment is never emitted
+    if mode != "direct_simple" and stream and ch.chance(1, 6, "link_cut"):
+        cut = ch.draw(len(stream) + 1, "cut_at")
+        stream = stream[:cut]
+        n_keep, o = 0, 0
+        for a in arrivals:
+            o += k + len(a[3])
+            if o > cut:
+                break
+            n_keep += 1
+        if n_keep < len(arrivals):
+            w.fault("link_cut")
+        del arrivals[n_keep:]
+    n_arr = len(arrivals)
 
     # ---- probes on the history (computed with the deterministic reading A of the model) -----
     def consecutive_of(g):
@@ -297,6 +311,8 @@ def run(ch, render=False):
             pos = [0]
 
             def take(avail):
+                if pos[0] >= len(heads):
+                    return avail              # the torn tail after a link cut
                 n_ = heads[pos[0]]
                 pos[0] += 1
                 return n_
